@@ -52,6 +52,10 @@ class Facts:
     def body(self, path):
         return self.bodies.get(path)
 
+    def any_body(self, path):
+        """A body by path, including helpers whose MIR was inlined into their callers (their HIR is still the source of the call's meaning)."""
+        return self.bodies.get(path) or self.removed_helpers.get(path)
+
     def bodies_where(self, pred):
         return [b for b in self.bodies.values() if pred(b)]
 
